@@ -5,7 +5,7 @@
 (* says, in file order, under the right section and label; invalid text    *)
 (* is rejected as a whole.                                                 *)
 (*                                                                         *)
-(* line == [kind |-> "comment"|"classes"|"ua_os"|"section"|"label"|"sig"|  *)
+(* line == [kind |-> "comment"|"classes"|"ua_os"|"malformed"|"section"|"label"|"sig"| *)
 (*          "sys", ...]                                                    *)
 (*   classes: items : Seq(STRING)       ua_os: items : Seq([k, v])         *)
 (*   section: name ("tcp:request", "mtu", ...)                             *)
@@ -37,6 +37,7 @@ Step(st, ln, D) ==
   ELSE CASE ln.kind = "comment" -> st
          [] ln.kind = "classes" -> [st EXCEPT !.classes = @ \o ln.items]
          [] ln.kind = "ua_os"   -> [st EXCEPT !.ua = @ \o UaItems(ln.items, D)]
+         [] ln.kind = "malformed" -> [st EXCEPT !.err = TRUE]            \* a directive line whose text cannot be read to its end: rejected, never loaded in part
          [] ln.kind = "section" -> [st EXCEPT !.sec = ln.name]
          [] OTHER ->
               IF st.sec = "" THEN [st EXCEPT !.err = TRUE]                 \* named value outside any section
